@@ -82,14 +82,14 @@ Definition bad_token (scheme host : string) (t : token) (now : Z) (path : list Z
   || negb (existsb (fun pre => starts_with pre path) (t_prefixes t)).     (* out of scope *)
 
 
-(* token.split('.') on a token given as character codes (46 = '.') *)
+(* token.split(<sep>) on a token given as character codes; the separator is the one of the source (jwt_sep = 46 = '.') *)
 Fixpoint split_dots (s : list Z) : list (list Z) :=
   match s with
   | [] => [[]]
-  | c :: t => if c =? 46 then [] :: split_dots t
+  | c :: t => if c =? jwt_sep then [] :: split_dots t
               else match split_dots t with [] => [[c]] | x :: r => (c :: x) :: r end
   end.
-Definition nodot (s : list Z) : bool := forallb (fun c => negb (c =? 46)) s.
+Definition nodot (s : list Z) : bool := forallb (fun c => negb (c =? jwt_sep)) s.
 
 (* ---------- wire ---------- *)
 Definition to_exp (x : sx) : expclaim :=
